@@ -528,11 +528,11 @@ Definition rect (x0 x1 y0 y1 : Z) : polygon := [(x0, y0); (x1, y0); (x1, y1); (x
 
 Theorem rect_wn_lemma : forall x0 x1 y0 y1 px py,
     x0 < x1 -> y0 < y1 ->
-    wn (rect x0 x1 y0 y1) (px, py) = if (x0 <? px) && (px <? x1) && (y0 <=? py) && (py <? y1) then 1 else 0.
+    wn (rect x0 x1 y0 y1) (px, py) = if (x0 <=? px) && (px <? x1) && (y0 <=? py) && (py <? y1) then 1 else 0.
 Proof.
   intros x0 x1 y0 y1 px py Hx Hy.
   unfold wn, rect, cyc_sum. cbn [app path_sum]. unfold w, orient. cbn [fst snd].
-  destruct (x0 <? px) eqn:A1; [apply Z.ltb_lt in A1 | apply Z.ltb_ge in A1];
+  destruct (x0 <=? px) eqn:A1; [apply Z.leb_le in A1 | apply Z.leb_gt in A1];
   destruct (px <? x1) eqn:A2; [apply Z.ltb_lt in A2 | apply Z.ltb_ge in A2 | apply Z.ltb_lt in A2 | apply Z.ltb_ge in A2];
   destruct (y0 <=? py) eqn:A3; try (apply Z.leb_le in A3); try (apply Z.leb_gt in A3);
   destruct (py <? y1) eqn:A4; try (apply Z.ltb_lt in A4); try (apply Z.ltb_ge in A4);
@@ -550,11 +550,11 @@ Qed.
    same region with the opposite sign *)
 Theorem rect_wn_rev_lemma : forall x0 x1 y0 y1 px py,
     x1 < x0 -> y0 < y1 ->
-    wn (rect x0 x1 y0 y1) (px, py) = if (x1 <? px) && (px <? x0) && (y0 <=? py) && (py <? y1) then -1 else 0.
+    wn (rect x0 x1 y0 y1) (px, py) = if (x1 <=? px) && (px <? x0) && (y0 <=? py) && (py <? y1) then -1 else 0.
 Proof.
   intros x0 x1 y0 y1 px py Hx Hy.
   unfold wn, rect, cyc_sum. cbn [app path_sum]. unfold w, orient. cbn [fst snd].
-  destruct (x1 <? px) eqn:A1; [apply Z.ltb_lt in A1 | apply Z.ltb_ge in A1];
+  destruct (x1 <=? px) eqn:A1; [apply Z.leb_le in A1 | apply Z.leb_gt in A1];
   destruct (px <? x0) eqn:A2; [apply Z.ltb_lt in A2 | apply Z.ltb_ge in A2 | apply Z.ltb_lt in A2 | apply Z.ltb_ge in A2];
   destruct (y0 <=? py) eqn:A3; try (apply Z.leb_le in A3); try (apply Z.leb_gt in A3);
   destruct (py <? y1) eqn:A4; try (apply Z.ltb_lt in A4); try (apply Z.ltb_ge in A4);
